@@ -1030,6 +1030,14 @@ package fzf
 //@ ensures result >= 0
 //@ package github.com/junegunn/fzf/src
 
+// acceptNth (--accept-nth): the fields are taken from the line as it would be printed - the original record, with
+// escape sequences removed under --ansi -, not from the display text that --with-nth may have produced.
+//@ func Item.acceptNth
+//@ property C07 C10
+//@ requires item != nil && len(Item.AsString_r0(item, stripAnsi)) < 2147483648
+//@ effect call transformer requires true
+//@ callsite Tokenize requires samestr(arg0, Item.AsString_r0(item, stripAnsi))
+
 // Terminal.output (what accept prints): one line per selected item when there is a selection, otherwise the current
 // item if there is one; the return value - which becomes the exit status 0 / 1 - says whether an item was printed.
 // Lines for --print-query, --expect and the print queue are not items.  (ghost nitems: item lines printed.)
